@@ -18,6 +18,19 @@ from mc.refmodels.ctc import ref_prefix_beam, lse, NEG
 
 ID = 'C03'
 
+def nmax(a):
+    """max() of an array of differences; a NaN anywhere counts as an infinite difference"""
+    import numpy as _np
+    a = _np.asarray(a, dtype=float)
+    return float('inf') if a.size and bool(_np.isnan(a).any()) else (float(a.max()) if a.size else 0.0)
+
+
+def nabs(x):
+    """abs() for tolerance tests: a NaN counts as an infinite difference (a result that is not a number equals nothing)"""
+    x = abs(x)
+    return float('inf') if x != x else x
+
+
 MANIFEST = dict(
     technique='explicit-state enumeration of the CTC matrix input tree x full LM/scale/bonus/beam/EOS/initial-state configuration product; real decoder + real LMWrapper + toy prefix-hash LMs vs sequential LM re-scoring and a reference LM-fused prefix beam search',
     text='Bounded exhaustive: every matrix with T <= 3 (quick) / 4 (thorough) rows over a 6-row alphabet in each of 384 configurations. For every returned hypothesis the LM score must equal the sum of the wrapper\'s own per-character scores (+ bonus, + EOS) from the start state; best_hyp() must be the arg-max of vis + scale*LM, confidence() its posterior, the returned hidden state exactly the state of that transcript; scale 0 must reproduce LM-free decoding; the returned set must equal a reference prefix beam search ranked by the fused score. Added sub-sweeps: the same decoder object decoding another and a blank-only line first, exact ties of the fused score (hand-over and returned state must agree), and decoders built by decoder_factory from a configuration section (all scales incl. 0 x bonuses x beam widths) against directly constructed ones. After every decode the returned bag is re-weighted with each other LM scale (bag.lm_weight is a public attribute): best_hyp() and confidence() must follow the new scale. Lines with blank-only frames (incl. lines on which only the blank is possible) with a supplied start state; decode_page() over a character set that holds the space.',
@@ -153,8 +166,8 @@ def check_factory(case, ctx):
             h2 = sorted((h.transcript, round(float(h.vis_sc), 9), round(float(h.lm_sc), 9)) for h in b2)
             t1 = sorted(float(x) for x in b1.total_scores()) if hasattr(b1, 'total_scores') else None
             t2 = sorted(float(x) for x in b2.total_scores()) if hasattr(b2, 'total_scores') else None
-            if h1 != h2 or b1.best_hyp() != b2.best_hyp() or abs(b1.lm_weight - b2.lm_weight) > 0 or \
-                    (t1 is not None and np.abs(np.asarray(t1) - np.asarray(t2)).max() > 1e-9):
+            if h1 != h2 or b1.best_hyp() != b2.best_hyp() or nabs(b1.lm_weight - b2.lm_weight) > 0 or \
+                    (t1 is not None and nmax(np.abs(np.asarray(t1) - np.asarray(t2))) > 1e-9):
                 ctx.violation('result-maximises-fused-score', f'{K}/differs-from-directly-constructed-decoder',
                               f'[DECODER] LM_SCALE={scale} INSERTION_BONUS={bonus} BEAM_SIZE={k} LM={lm}: matrix {[ROWS[i] for i in rows]} decodes to '
                               f'{h1} / {b1.best_hyp()!r} (weight {b1.lm_weight}); the decoder constructed with these values gives {h2} / {b2.best_hyp()!r}')
@@ -294,14 +307,14 @@ def check_case(case, ctx):
         bad = None
         for t, v, l in hyps:
             want, _ = seq_score(w, h0, t, bonus, eos, memo)
-            if abs(want - l) > EPS:
+            if nabs(want - l) > EPS:
                 bad = (t, l, want)
                 break
         if bad:
             ctx.violation('lm-score-is-the-models-own', f'{K}/lm-score-wrong',
                           f'{desc}; LM score of {bad[0]!r} is {bad[1]}, sequential re-scoring gives {bad[2]}', sub)
             continue
-        if abs(boh.lm_weight - scale) > 0:
+        if nabs(boh.lm_weight - scale) > 0:
             ctx.violation('result-maximises-fused-score', f'{K}/lm-weight-not-archived', f'{desc}; bag.lm_weight={boh.lm_weight}', sub)
             continue
         # (2) the result handed on maximises vis + scale*lm; confidence is its posterior; returned state is its state
@@ -322,7 +335,7 @@ def check_case(case, ctx):
             post = math.exp(tot[order[0]] - np.logaddexp.reduce(np.asarray(tot)))
             conf = boh.confidence()
             ctx.executed()
-            if abs(conf - post) > EPS or not (0 <= conf <= 1 + 1e-12):
+            if nabs(conf - post) > EPS or not (0 <= conf <= 1 + 1e-12):
                 ctx.violation('confidence-is-posterior-of-result', f'{K}/confidence',
                               f'{desc}; confidence() = {conf}, posterior of {top!r} = {post}', sub)
                 continue
@@ -364,7 +377,7 @@ def check_case(case, ctx):
             b2, c2 = boh.best_hyp(), boh.confidence()
             ctx.executed(2)
             post2 = math.exp(tot2[o2[0]] - np.logaddexp.reduce(np.asarray(tot2)))
-            if b2 not in tied2 or abs(c2 - post2) > EPS:
+            if b2 not in tied2 or nabs(c2 - post2) > EPS:
                 bad = (w2, b2, c2, tied2, post2)
                 break
             if len(tied2) == 1 and tied2[0] != best:
